@@ -113,7 +113,9 @@ AuthShapes == {[cred |-> "cookie", age |-> 0], [cred |-> "cookie", age |-> 8 * 3
                [cred |-> "ipcert_long", age |-> 0]}
 
 \* ext3: a flag-style operator extension (empty value, like the five standard ones) next to an ordinary one
-Worlds == {"plain", "ed25519ca", "realm", "ext1", "ext2", "ext3", "groups"}
+\* ed25519ca_listed: the second CA key is configured AND the list of published keys the server was started with
+\* (keymaster_public_keys_filename, shared by the instances of a cluster) already holds this instance's main CA key
+Worlds == {"plain", "ed25519ca", "ed25519ca_listed", "realm", "ext1", "ext2", "ext3", "groups"}
 ExtOf(w, norm) == CASE w = "ext1" -> {<<"login@example.com", norm>>}
                     [] w = "ext2" -> {<<"login@example.com", norm>>, <<"role-" \o norm, "u=" \o norm \o ";fixed">>}
                     [] w = "ext3" -> {<<"no-touch-required@example.com", "">>, <<"home", norm>>}
@@ -130,9 +132,15 @@ Fresh == [cred |-> "cookie", age |-> 0]
 
 \* what follows /certgen/ in the URL: the caller's own name, another user's, the own name in another case, and longer paths
 \* that merely END in (or start with) the own name - each of them names somebody else
+\* "typed": the spelling the user typed at the login prompt, where that is not the normalised name
 Targets == {"self", "other", "othercase", "other/self", "self/", "self/other", "./self"}
-InC02(r) == \E u \in NameClasses, k \in GoodKeys, p \in UserPaths, w \in Worlds, t \in Targets :
-              r = Req(p, u, k, D1h, Fresh, t, w)
+InC02(r) == \/ \E u \in NameClasses, k \in GoodKeys, p \in UserPaths, w \in Worlds, t \in Targets :
+                 r = Req(p, u, k, D1h, Fresh, t, w)
+            \* the password sent along with the request itself (no session): the same user, normalised the same way
+            \/ \E u \in NameClasses, k \in {Key("p256", "ecdsa", 256, 0, TRUE), Key("rsa2048", "rsa", 2048, 65537, TRUE)}, p \in UserPaths,
+                  w \in {"plain"}, t \in {"self", "other", "othercase", "typed"} :
+                 /\ (t = "typed" => u.typed # u.norm)
+                 /\ r = Req(p, u, k, D1h, [cred |-> "basic", age |-> 0], t, w)
 \* where the client puts the duration parameter: in the request body (the stock client) or in the URL's query string
 DurLocs == {"body", "query"}
 InC03(r) == \/ \E d \in Durations, a \in AuthShapes, p \in UserPaths, loc \in DurLocs :
